@@ -269,7 +269,17 @@ def build_robot(spec):
         if level == 0:
             body["createObjects"] = lambda self: None
             for h in hooks:
-                if h not in spec.get("omit_hooks", ()):
+                if h in spec.get("omit_hooks", ()):
+                    continue
+                if h in spec.get("consume_hooks", ()):
+                    # the documented `with self.consumeExceptions():` block inside a periodic method, and code after it
+                    def hm(self, _site=f"R.{h}"):
+                        with self.consumeExceptions():
+                            rt.cb(_site)
+                        rt.cb(_site + ".after")
+                    hm.__name__ = hm.__qualname__ = h
+                    body[h] = hm
+                else:
                     body[h] = _mk_method(h, f"R.{h}")
             if spec.get("super_robot_periodic"):
                 def robotPeriodic(self):
